@@ -24,7 +24,6 @@ import (
 	"runtime"
 	"sort"
 	"strconv"
-	"time"
 
 	"verif/minichain"
 	"verif/vk"
@@ -61,7 +60,7 @@ func main() {
 		vk.Fatalf("unknown worker part %q", *part)
 	}
 	if r.ReplayPath != "" {
-		vk.Fatalf("replay: the replay object names the engine, the search/scenario and the op list or schedule; re-run `/verif/check C07 --part <engine>`")
+		replay(r)
 	}
 	scratch := fmt.Sprintf("/dev/shm/C07-%d", os.Getpid())
 	if err := os.MkdirAll(scratch, 0700); err != nil {
@@ -85,18 +84,20 @@ func main() {
 			nontrivial["e3:"+k] = true
 		}
 	}
-	// E2 (few long-running worker processes) runs next to E1 (many short cases)
+	// E2 (few long-running worker processes) runs next to E1 (many short cases); each gets 5/8 of the run's budget
+	// (quick: 150 s of 4 min, thorough: 25 min of 40 min; --budget scales both)
+	partBudget := r.Remaining() * 5 / 8
 	var e2 *e2stats
 	var e1 *e1stats
 	e2done := make(chan struct{})
 	go func() {
 		defer close(e2done)
 		if all || *part == "e2" {
-			e2 = runE2(r, time.Duration(r.Pick(150, 1500))*time.Second)
+			e2 = runE2(r, partBudget)
 		}
 	}()
 	if all || *part == "e1" {
-		s := runE1(r, scratch, time.Duration(r.Pick(150, 1500))*time.Second)
+		s := runE1(r, scratch, partBudget)
 		r.Set("e1_searches", s.perSearch)
 		r.Set("e1_reuse_offers_refused", s.rejectedReuse)
 		r.Set("e1_reuse_offers_refused_by_class", s.byClass)
@@ -169,4 +170,56 @@ func sweepScratch() {
 			os.RemoveAll(e)
 		}
 	}
+}
+
+// replay re-executes one recorded case in this process (E1: the op history; E3: the history, crash prefix and probe).
+// E2 schedules are replayed by re-running the scenario (`--part e2`): the explorer is deterministic.
+func replay(r *vk.Run) {
+	var rp struct {
+		Engine  string `json:"engine"`
+		Search  string `json:"search"`
+		OpIDs   []int  `json:"op_ids"`
+		History string `json:"history"`
+		Cut     int    `json:"cut"`
+		Probe   string `json:"probe"`
+	}
+	r.LoadReplay(&rp)
+	cat := buildCatalogue()
+	switch rp.Engine {
+	case "E1":
+		for _, cfg := range e1configs(r.Quick()) {
+			if cfg.name != rp.Search {
+				continue
+			}
+			ops := cfg.ops()
+			out := execHistory(cat, &cfg, ops, rp.OpIDs)
+			for i, o := range rp.OpIDs {
+				fmt.Printf("  %d. %s\n", i+1, ops[o])
+			}
+			fmt.Printf("last op: %s (class %q); state %q\n", out.Last, out.Class, out.Key)
+			for _, v := range out.Viol {
+				r.Violation(v[0], v[1], rp)
+			}
+			r.Finish()
+		}
+		vk.Fatalf("replay: no search %q in tier %s (replay with the tier that recorded the case)", rp.Search, r.Tier)
+	case "E3":
+		for _, cs := range e3cases(r.Quick()) {
+			if cs.Name != rp.History {
+				continue
+			}
+			res := runE3Case(cat, cs)
+			for _, p := range res.Probes {
+				if p.Cut == rp.Cut && p.Probe == rp.Probe {
+					fmt.Printf("cut %d (%s, undo log %s): height %d, boot %q, pool %q, block %q, bad %q\n", p.Cut, p.Window, p.Wal, p.Height, p.Boot, p.Pool, p.Block, p.Bad)
+					if p.Bad != "" {
+						r.Violation("restart-forgets-consumed-input:"+p.Window, p.Bad, rp)
+					}
+				}
+			}
+			r.Finish()
+		}
+		vk.Fatalf("replay: no history %q in tier %s", rp.History, r.Tier)
+	}
+	vk.Fatalf("replay: engine %q: re-run `/verif/check C07 --part e2` (the schedule explorer is deterministic)", rp.Engine)
 }
